@@ -99,16 +99,21 @@ def report(v, rows, tr, what):
 
 
 def validate(v, path, cfg, what, timeout=1800):
+    """cases log: every violation (chunks of 20 cases keep counterexamples short); ids log (long concurrent
+    waves): first violation only."""
     rows = vlib.read_ndjson(path)
-    tr = vlib.tlc("TraceSampleCoding", cfg, env={"VERIF_TRACE": path}, workers=1, cont=True, timeout=timeout, heap="4g")
+    tr = vlib.tlc("TraceSampleCoding", cfg, env={"VERIF_TRACE": path}, workers=4, cont=(what == "cases"), timeout=timeout, heap="4g")
     return rows, tr
 
 
 def _finish(v, rows, tr, what):
     if tr.error:
         raise vlib.MachineryError("TraceSampleCoding (%s) failed: %s\n%s" % (what, tr.kind, tr.out[-3000:]))
-    if tr.distinct != len(rows) + 1:
-        raise vlib.MachineryError("TraceSampleCoding (%s) consumed %d of %d lines\n%s" % (what, tr.distinct - 1, len(rows), tr.out[-2000:]))
+    resets = sum(1 for r in rows if r["ev"] == "Reset")
+    first = min([i for i, r in enumerate(rows) if r["ev"] == "Reset"] or [0])
+    if (what == "cases" or not tr.violation) and tr.distinct != len(rows) - first + resets:
+        raise vlib.MachineryError("TraceSampleCoding (%s) visited %d states for %d lines + %d restart points\n%s" % (
+            what, tr.distinct, len(rows), resets, tr.out[-2000:]))
     report(v, rows, tr, what)
 
 
